@@ -17,6 +17,9 @@ Case families (each enumerated completely, see enumerate_cases):
             containers: build+export [-> parse] -> change sw_version / fuse_version / flags / a load address of the last
             container -> attach the matching signing key (provider, or the `ahab sign` configuration path) ->
             update_fields() [twice] -> export; the new bytes go to the independent reader
+  lists     container lists: own `container` entries mixed with binary_container files built by the harness from SPSDK-exported
+            containers (1 or 2 containers per file) in every position, every list within the family's container limit (+ the
+            lists one over it, counted only), one representative per (container version, limit)
   grid      full product target memory x offset mode x size class x images per container x containers (structural group;
             quick: size classes {13, 1026, 513}, images {1, 3}, containers {1, 2}; thorough: all; offset modes incl. explicit
             offsets that are not ascending inside a container: descending, middle-first, descending + automatic,
@@ -66,6 +69,10 @@ CLAUSES = {
     "C06.history": "after a legal object history (build/export [-> parse] -> change a signed field -> attach the matching "
                    "signing key -> update_fields() [twice] -> export) export() refuses, or the independent reader refuses the new "
                    "bytes, or the changed field is not in them (disc = history:what)",
+    "C06.container-list": "a `containers:` list that mixes own containers with binary_container files (1 or 2 SPSDK-exported "
+                          "containers each) within the family's container limit does not come out as: every container at "
+                          "index * container size, binary containers byte-identical to their source, own containers with their "
+                          "images, nothing overlapping (disc = what)",
     "C06.builder-refuses-own-layout": "load_from_config accepted the configuration, but export() (its own verify()) refuses the "
                                       "image because of an ERROR record about a field SPSDK itself computes from the layout "
                                       "(disc = record, normalised; classification: REFUSAL_TABLE)",
@@ -820,6 +827,41 @@ def tamper_sweep(p: dict, data: bytes, r: dict, deks: list, mode: int, viol: lis
                          f"{name}@{o:#x} bit {bit} ({fld}): parse + verify() report no error; the independent reader refuses: {why}"))
 
 
+def judge_refusal(e: "Rejected", p: dict, out: dict) -> None:
+    """export() refused because of SPSDK's own verify(): whose fault is it?  Adds violations / counters to `out`."""
+    from vf.ref import ahab_ref
+
+    if e.stage != "export" or not e.paths:
+        return
+    auto = p["off"] == "auto" or p["mem"] == "serial_downloader"
+    if e.img is not None and any(q.endswith("/Image overlapping") for q in e.paths):
+        # do the images really collide?  own interval arithmetic on the container headers SPSDK built (independent of
+        # AHABImage.__len__ / image_info(), which is what the overlap record is computed from)
+        try:
+            lay = ahab_ref.layout_problems([bytes(c.export()) for c in e.img.ahab_containers])
+            if lay is None:
+                out["count"]["obs:layout-headers-unreadable"] = 1
+            elif not lay:
+                out["viol"].append(("C06.valid-layout-refused", "Image overlapping:%s-offsets-disjoint" % ("automatic" if auto else "explicit"),
+                                    f"export() refuses with {e.paths[:2]}, but no image interval of the built container headers "
+                                    f"touches another image or a container (offset mode {p['off']})"))
+            else:
+                out["count"]["overlap_refusal_confirmed_by_intervals"] = 1
+        except (core.Watchdog, core.HarnessError):
+            raise
+        except Exception as e3:  # noqa
+            out["count"]["obs:layout-check-failed:" + type(e3).__name__] = 1
+    # REFUSAL_TABLE
+    classes = [classify_refusal(q, auto) for q in e.paths]
+    for cls, name in sorted(set(classes)):
+        out["count"][f"refusal:{cls}:{name}"] = 1
+    computed = sorted({name for cls, name in classes if cls == "computed"})
+    if computed and not any(cls == "user" for cls, _ in classes) and not any(v[0] == "C06.verify-built-clean" for v in out["viol"]):
+        out["viol"].append(("C06.builder-refuses-own-layout", computed[0],
+                            f"load_from_config accepted the configuration, export() refuses its own layout: "
+                            f"{[q for q in e.paths if classify_refusal(q, auto)[0] == 'computed'][:3]}"))
+
+
 # ---------------------------------------------------------------------------------------------
 # one case
 
@@ -866,35 +908,7 @@ def run_case(case: dict, seed: int) -> dict:
                     raise
                 except Exception as e2:  # noqa
                     out["count"]["obs:bypass-export-failed:" + type(e2).__name__] = 1
-            if e.stage == "export" and e.img is not None and any(q.endswith("/Image overlapping") for q in e.paths):
-                # do the images really collide?  own interval arithmetic on the container headers SPSDK built (independent of
-                # AHABImage.__len__ / image_info(), which is what the overlap record is computed from)
-                try:
-                    lay = ahab_ref.layout_problems([bytes(c.export()) for c in e.img.ahab_containers])
-                    if lay is None:
-                        out["count"]["obs:layout-headers-unreadable"] = 1
-                    elif not lay:
-                        auto_l = p["off"] == "auto" or p["mem"] == "serial_downloader"
-                        out["viol"].append(("C06.valid-layout-refused", "Image overlapping:%s-offsets-disjoint" % ("automatic" if auto_l else "explicit"),
-                                            f"export() refuses with {e.paths[:2]}, but no image interval of the built container headers "
-                                            f"touches another image or a container (offset mode {p['off']})"))
-                    else:
-                        out["count"]["overlap_refusal_confirmed_by_intervals"] = 1
-                except (core.Watchdog, core.HarnessError):
-                    raise
-                except Exception as e3:  # noqa
-                    out["count"]["obs:layout-check-failed:" + type(e3).__name__] = 1
-            if e.stage == "export" and e.paths:
-                # whose fault is the refusal?  (REFUSAL_TABLE)
-                auto = p["off"] == "auto" or p["mem"] == "serial_downloader"
-                classes = [classify_refusal(q, auto) for q in e.paths]
-                for cls, name in sorted(set(classes)):
-                    out["count"][f"refusal:{cls}:{name}"] = 1
-                computed = sorted({name for cls, name in classes if cls == "computed"})
-                if computed and not any(cls == "user" for cls, _ in classes) and not any(v[0] == "C06.verify-built-clean" for v in out["viol"]):
-                    out["viol"].append(("C06.builder-refuses-own-layout", computed[0],
-                                        f"load_from_config accepted the configuration, export() refuses its own layout: "
-                                        f"{[q for q in e.paths if classify_refusal(q, auto)[0] == 'computed'][:3]}"))
+            judge_refusal(e, p, out)
             return out
         except WrongType as e:
             k = f"obs:build-error-type:{type(e.exc).__name__}@{_site(e.exc)}"
@@ -1163,6 +1177,136 @@ def run_hist_case(case: dict, seed: int) -> dict:
 
 
 # ---------------------------------------------------------------------------------------------
+# container lists: own containers mixed with binary_container files that hold one or two containers
+
+
+def list_shapes(limit: int) -> list:
+    """Every list over {own, b1, b2} (b<n> = binary_container file with n containers) with at least one binary entry whose
+    containers add up to <= limit, plus the lists that exceed the limit by one (expected to be refused)."""
+    out: list = []
+
+    def grow(prefix: list, total: int) -> None:
+        if prefix and any(x != "own" for x in prefix):
+            out.append(list(prefix))
+        for sym, n in (("own", 1), ("b1", 1), ("b2", 2)):
+            if total + n <= limit + 1 and total < limit:
+                grow(prefix + [sym], total + n)
+
+    grow([], 0)
+    return out
+
+
+def run_list_case(case: dict, seed: int) -> dict:
+    """case: {"i", "k", "d": {"mem"}, "l": ["b2", "own", ...]}."""
+    from spsdk.exceptions import SPSDKError
+
+    from vf.ref import ahab_ref
+
+    viol: list = []
+    count: dict = {}
+    info = case["i"]
+    shape = case["l"]
+    p = resolve(case)
+    p["_cv_dim"] = False
+    slot = 0x4000 if p["version"] == 2 else 0x400
+    start = 0xC000 if p["version"] == 2 else 0x2000
+    total = sum(2 if x == "b2" else 1 for x in shape)
+    td = tempfile.mkdtemp(prefix="vf-c06-l-", dir=os.environ.get("VERIF_WORKDIR") or None)
+    try:
+        entries = []
+        expect = []  # per final container: {"sw", "data", "src": header bytes of the source container or None}
+        for q, sym in enumerate(shape):
+            tq = os.path.join(td, f"e{q}")
+            os.makedirs(tq)
+            if sym == "own":
+                cfg1, g1 = build_config(dict(p, nc=1, off="auto"), seed * 1000 + q + 1, tq)
+                cont = cfg1["containers"][0]["container"]
+                cont["sw_version"] = 100 + q
+                entries.append({"container": cont})
+                expect.append({"sw": 100 + q, "data": g1["containers"][0]["images"][0]["data"], "src": None})
+                continue
+            n = 2 if sym == "b2" else 1
+            # the firmware-like file: n containers exported by SPSDK for the standard target, images at explicit offsets in a window
+            # of their own (a parsed container keeps its image offsets relative to its - new - container start)
+            pb = dict(p, nc=n, off="auto", mem="standard", srk="p384" if p["kind"] == "s" else p["srk"])
+            cfgb, gb = build_config(pb, seed * 1000 + q + 1, tq)
+            for j in range(n):
+                cb = cfgb["containers"][j]["container"]
+                cb["sw_version"] = 200 + 10 * q + j
+                cb["images"][0]["image_offset"] = start + 0x20000 * (q + 1) + j * 0x4000
+            try:
+                _imgb, fileb = spsdk_build(cfgb, tq)
+            except (Rejected, WrongType) as e:
+                raise core.HarnessError(f"cannot build the binary_container file for {shape}: {e}")
+            fpath = os.path.join(tq, "fw.bin")
+            with open(fpath, "wb") as f:
+                f.write(fileb)
+            entries.append({"binary_container": {"path": fpath}})
+            rb = ahab_ref.examine(fileb, None, crypto="lib")
+            if rb["problems"] or len(rb["containers"]) != n:
+                raise core.HarnessError(f"binary_container file for {shape} is not clean: {rb['problems'][:2]}")
+            for j in range(n):
+                cj = rb["containers"][j]
+                expect.append({"sw": 200 + 10 * q + j, "data": gb["containers"][j]["images"][0]["data"],
+                               "src": fileb[cj["base"]:cj["base"] + cj["length"]]})
+        cfg = {"family": p["family"], "revision": p["revision"], "target_memory": p["mem"], "output": os.path.join(td, "out.bin"),
+               "containers": entries}
+        over = total > info["maxc"]
+        try:
+            img, data = spsdk_build(cfg, td)
+        except Rejected as e:
+            out = {"viol": [], "count": {"rejected": 1, "list_rejected_over_limit" if over else "list_rejected_within_limit": 1},
+                   "distinct": [], "rejected": str(e).replace(td, "<td>")[:300]}
+            if not over:
+                judge_refusal(e, p, out)  # e.g. 'Container offset' is SPSDK's own arithmetic (REFUSAL_TABLE)
+            return out
+        except WrongType as e:
+            k = f"obs:build-error-type:{type(e.exc).__name__}@{_site(e.exc)}"
+            return {"viol": [], "count": {"builder_error": 1, k: 1}, "distinct": [], "builder_error": str(e).replace(td, "<td>")[:300]}
+        count["accepted"] = 1
+        r = ahab_ref.examine(data, None, crypto="lib")
+        if over:
+            # more containers than the family allows: not judged; what SPSDK does with the surplus is only counted
+            count["obs:over-limit-list-accepted:%d-of-%d-containers" % (len(r["containers"]), total)] = 1
+            return {"viol": [], "count": count, "distinct": []}
+        for stage, msg in r["problems"]:
+            viol.append(("C06.container-list", f"reader:{stage}", msg))
+        if len(r["containers"]) != total:
+            viol.append(("C06.container-list", "count", f"list {shape}: {total} containers expected, {len(r['containers'])} found at index * {slot:#x}"))
+        elif [c["sw_version"] for c in r["containers"]] != [x["sw"] for x in expect]:
+            viol.append(("C06.container-list", "order", f"list {shape}: containers (by their sw_version marks) {[c['sw_version'] for c in r['containers']]}, "
+                         f"expected {[x['sw'] for x in expect]}"))
+        else:
+            for k, (c, x) in enumerate(zip(r["containers"], expect)):
+                if x["src"] is not None and data[c["base"]:c["base"] + len(x["src"])] != x["src"]:
+                    viol.append(("C06.container-list", "binary-container-bytes", f"list {shape}: container {k} differs from the container in the binary file"))
+                e0 = c["images"][0] if c["images"] else None
+                if e0 is None or e0["end"] > len(data):
+                    continue
+                got = data[e0["start"]:e0["end"]]
+                if got[:len(x["data"])] != x["data"] or any(got[len(x["data"]):]):
+                    viol.append(("C06.container-list", "image-content", f"list {shape}: container {k}: the entry does not point at its image"))
+        # SPSDK reads its own result back
+        try:
+            back = spsdk_parse(p["family"], p["revision"], p["mem"], data)
+            ep = error_paths(back.verify())
+            if ep and not r["problems"]:
+                viol.append(("C06.container-list", f"reparse:{short_path(ep[0])}", f"list {shape}: verify() of the parsed result: {ep[:3]}"))
+            elif not ep and bytes(back.export()) != data:
+                viol.append(("C06.container-list", "reparse:export-differs", f"list {shape}: parse(export).export() differs"))
+        except (core.Watchdog, core.HarnessError):
+            raise
+        except SPSDKError as e:
+            if not r["problems"]:
+                viol.append(("C06.container-list", "reparse:refused", f"list {shape}: {str(e)[:200]}".replace(td, "<td>")))
+        except Exception as e:  # noqa
+            viol.append(("C06.container-list", f"reparse:raises:{type(e).__name__}@{_site(e)}", f"list {shape}: {type(e).__name__}: {e}"[:300]))
+        return {"viol": core.dedupe(viol), "count": count, "distinct": [core.short_hash(["list", info["class"], case["k"], case.get("d", {}), shape])]}
+    finally:
+        shutil.rmtree(td, ignore_errors=True)
+
+
+# ---------------------------------------------------------------------------------------------
 # nxpimage ahab export / parse / verify
 
 
@@ -1351,6 +1495,8 @@ def w_case(case: dict) -> dict:
         return run_cli_case(case, _SEED)
     if case.get("h"):
         return run_hist_case(case, _SEED)
+    if case.get("l"):
+        return run_list_case(case, _SEED)
     return run_case(case, _SEED)
 
 
@@ -1511,6 +1657,22 @@ def enumerate_cases(tier: str, sv: list) -> dict:
                         for hk in HIST_KINDS:
                             hist.append({"i": info, "k": "s", "d": d, "h": hk})
     fam["hist"] = hist
+    # container lists with binary_container files of one / two containers in every position, one representative per
+    # (container version, container limit)
+    lists = []
+    seen_l = set()
+    for rs in reps:
+        info = rs[0]
+        key = (info["v"][0], info["maxc"])
+        if key in seen_l:
+            continue
+        seen_l.add(key)
+        combos = [("s", m) for m in (("standard", "serial_downloader") if quick else MEMORIES)] + \
+                 [("u", m) for m in (("standard",) if quick else ("standard", "serial_downloader", "nand_4k"))]
+        for kind, mem in combos:
+            for shape in list_shapes(info["maxc"]):
+                lists.append({"i": info, "k": kind, "d": ({"mem": mem} if mem != MEMORIES[0] else {}), "l": shape})
+    fam["lists"] = lists
     # cli
     cli = []
     for rs in reps:
@@ -1525,7 +1687,7 @@ def enumerate_cases(tier: str, sv: list) -> dict:
     if lat2:
         fam["lat k=2"] = lat2
     # execution order: the cheap families with the widest reach first, the big products last
-    order = ["base", "cli", "keys", "hist", "lat k=1", "bytes", "grid", "lat k=2"]
+    order = ["base", "cli", "keys", "hist", "lists", "lat k=1", "bytes", "grid", "lat k=2"]
     return {n: fam[n] for n in order if n in fam}
 
 
@@ -1591,13 +1753,13 @@ def run(ctx: core.Ctx) -> None:
             ctx.cov["families"][name] = {"cases": len(cases), "done": 0, "completed": False}
             continue
         n = acc = rej = err = 0
-        heavy = name in ("bytes", "cli", "base", "lat k=1", "keys", "hist")
+        heavy = name in ("bytes", "cli", "base", "lat k=1", "keys", "hist", "lists")
         gen = ctx.pool_map(w_case, cases, timeout=600 if heavy else 120, initfn=_init_worker, chunksize=1 if heavy else 4,
                            check_det=2)
         cut = False
         for case, res in gen:
             small = {"f": case["i"]["family"], "r": case["i"]["revision"], "i": case["i"], "k": case["k"], "d": case.get("d", {})}
-            for extra in ("t", "tp", "cli", "h"):
+            for extra in ("t", "tp", "cli", "h", "l"):
                 if extra in case:
                     small[extra] = case[extra]
             ok = ctx.absorb(small, res)
@@ -1608,7 +1770,7 @@ def run(ctx: core.Ctx) -> None:
                     outcome = "rejected"
                     if len(rejected_samples) < 40 and not any(s["d"] == case.get("d") for s in rejected_samples):
                         rejected_samples.append({"f": case["i"]["family"], "k": case["k"], "d": case.get("d", {}), "why": res["rejected"][:160]})
-                    if name == "base" or not case.get("d"):
+                    if (name == "base" or not case.get("d")) and not case.get("l"):
                         raise core.HarnessError(f"base case rejected: {case['i']['family']}/{case['i']['revision']} {case['k']} {case.get('d')}: {res['rejected']}")
                 elif res.get("count", {}).get("accepted"):
                     acc += 1
